@@ -13,6 +13,7 @@ import (
 
 	"encoding/json"
 	"errors"
+	"time"
 
 	"servitor/ansi"
 	"servitor/gemtext"
@@ -157,5 +158,10 @@ func init() {
 	}
 	register("render", renderOp)
 	// the same without a model run (C06 only needs the implementation to return normally and promptly)
-	register("rendernm", func(a []int) []int { r := renderOp(a); libOut = nil; return r })
+	register("rendernm", func(a []int) []int {
+		t0 := time.Now()
+		r := renderOp(a)
+		libOut = nil
+		return append(r, int(time.Since(t0)/time.Millisecond)) // elapsed ms as the last token
+	})
 }
